@@ -30,7 +30,7 @@ CLASS_NAMES = ['Base', 'Widget', 'Gadget', 'Mixin', 'Node', 'Leaf', 'Tree', 'Han
 FUNC_NAMES = ['run', 'make', 'load', 'dump', 'helper', 'visit', 'build', 'reset']
 METH_NAMES = ['meth', 'start', 'stop', 'render', 'close', 'update', '__repr__', '_internal', 'value']
 VAR_NAMES = ['CONST', 'LIMIT', 'default', 'registry', '_cache', 'VERSION']
-MOD_NAMES = ['core', 'util', 'hid', '_impl', 'api', 'extra', 'plugins', 'compat']
+MOD_NAMES = ['core', 'util', 'hid', '_impl', 'api', 'extra', 'plugins', 'compat', 'html']
 
 
 class Proj:
@@ -347,7 +347,32 @@ def corpus() -> List[Dict[str, Any]]:
             '    class Inner(Generic[K], Dict[str, Row]):\n        """Inner, generic in Outer.K."""\n'
             '        val: K = None\n        """v"""\n'),
     }
+    html_files = {      # a page object literally named `html` below a package that is not the single root (twisted.web.html)
+        'webkit/__init__.py': '"""webkit"""\n',
+        'webkit/web/__init__.py': '"""web: see L{webkit.web.html.Tag} and L{webkit.web.html}"""\nfrom webkit.web.html import Tag\n',
+        'webkit/web/html.py': '"""html helpers"""\nclass Tag:\n    """a tag"""\n    def render(self):\n        """r"""\n'
+                              'class html:\n    """a class named html"""\ndef escape(s):\n    """e"""\n',
+        'webkit/other.py': '"""other L{webkit.web.html.escape}"""\nfrom webkit.web import html\nclass Page(html.Tag):\n    """p"""\n',
+    }
+    subject_files = {
+        'pkg/__init__.py': '"""p"""\n',
+        'pkg/_internal/__init__.py': '"""internal"""\n',
+        'pkg/_internal/impl.py': '"""impl"""\nclass Impl:\n    """i"""\n    def run(self):\n        """r"""\n',
+        'pkg/api.py': '"""api"""\nfrom pkg._internal.impl import Impl\nclass Api(Impl):\n    """a"""\n',
+    }
     out = [
+        {'id': 'corpus-page-named-html', 'files': html_files, 'roots': ['webkit'], 'args': ['--sidebar-expand-depth=2']},
+        # --html-subject: only the pages of the subjects (and objects.inv from them) are written: a PARTIAL site,
+        # checked by the C12 oracle only (no model comparison, no link liveness)
+        {'id': 'corpus-html-subject-below-hidden', 'files': subject_files, 'roots': ['pkg'], 'partial': True,
+         'args': ['--privacy=HIDDEN:pkg._internal', '--html-subject=pkg._internal.impl.Impl', '--html-subject=pkg.api.Api']},
+        {'id': 'corpus-html-subject-hidden-member', 'files': subject_files, 'roots': ['pkg'], 'partial': True,
+         'args': ['--privacy=HIDDEN:pkg._internal.impl.Impl', '--html-subject=pkg._internal.impl.Impl.run', '--html-subject=pkg._internal']},
+        # a function whose linker is created while the source is parsed (default value) and which is then re-exported
+        {'id': 'corpus-stale-linker-reexport',
+         'files': {'pkg/__init__.py': '"""pkg"""\nfrom ._impl import f\n__all__ = [\'f\']\n',
+                   'pkg/_impl.py': '"""impl"""\ndef g():\n    "g doc"\ndef f(a=g):\n    """See L{g}."""\n'},
+         'roots': ['pkg'], 'args': []},
         {'id': 'corpus-generic-bases', 'files': generic_files, 'roots': ['pkg'], 'args': []},
         {'id': 'corpus-generic-bases-hidden-var', 'files': generic_files, 'roots': ['pkg'],
          'args': ['--privacy=HIDDEN:pkg.containers.T', '--privacy=PRIVATE:pkg.containers.Row', '--theme=readthedocs']},
@@ -404,7 +429,8 @@ def to_model(reg: Dict[str, Any]) -> str:
                      PRIV[o.get('rawpriv', o['priv'])], 1 if o['doc'] else 0, o.get('mro', []), o.get('subclasses', []),
                      [([] if b[1] is None else [b[1]]) for b in o.get('bases', [])],
                      [] if o.get('module') is None else [o['module']],
-                     [] if o.get('docsource') is None else [o['docsource']], o.get('xrefs', []), o.get('sumxrefs', [])])
+                     [] if o.get('docsource') is None else [o['docsource']], o.get('xrefs', []), o.get('sumxrefs', []),
+                     [] if o.get('linker_page') is None else [o['linker_page']]])
     return enc([[objs, reg['roots'], [v for _, v in reg['all']], reg['root_names']],
                 reg['sidebar_depth'], 1 if reg['nosidebar'] else 0])
 
